@@ -277,7 +277,7 @@ sexp sexp_arithmetic_shift (sexp ctx, sexp self, sexp_sint_t n, sexp i, sexp cou
       c = -c;
       offset = c / (sizeof(sexp_uint_t)*CHAR_BIT);
       bit_shift = c - offset*(sizeof(sexp_uint_t)*CHAR_BIT);
-      if (len < offset) {
+      if (len <= offset) {
         res = sexp_make_fixnum(sexp_bignum_sign(i) > 0 ? 0 : -1);
       } else {
         res = sexp_make_bignum(ctx, len - offset + 1);
@@ -290,8 +290,15 @@ sexp sexp_arithmetic_shift (sexp ctx, sexp self, sexp_sint_t n, sexp i, sexp cou
               tmp = sexp_bignum_data(i)[j+offset]
                 << (sizeof(sexp_uint_t)*CHAR_BIT-bit_shift);
           }
-          if (sexp_bignum_sign(res) < 0)
-            res = sexp_bignum_fxadd(ctx, res, 1);
+          if (sexp_bignum_sign(res) < 0) {
+            /* round toward negative infinity: add one iff a one was shifted out */
+            tmp = (bit_shift != 0) ? sexp_bignum_data(i)[offset]
+              << (sizeof(sexp_uint_t)*CHAR_BIT-bit_shift) : 0;
+            for (j=0; j<offset && !tmp; j++)
+              tmp = sexp_bignum_data(i)[j];
+            if (tmp)
+              res = sexp_bignum_fxadd(ctx, res, 1);
+          }
         }
       }
     } else {
